@@ -63,6 +63,12 @@ func main() {
 		for i := 0; i < *n; i++ {
 			diffCase(i+1, *seed*1000003+int64(i), enc, *big > 0 && i%*big == 0)
 		}
+	case "cursor":
+		enc, done := openOut(*out)
+		defer done()
+		for i := 0; i < *n; i++ {
+			cursorCase(i+1, *seed*1000003+int64(i), enc)
+		}
 	default:
 		fmt.Fprintln(os.Stderr, "unknown family "+fam)
 		os.Exit(2)
